@@ -1210,7 +1210,12 @@ impl<'ast, 'res> Resolver<'ast, 'res> {
                 .join(ExprClass::PureMayTrap),
             Expr::Binary { op, lhs, rhs, .. } => {
                 let class = self.classify_expr(lhs).join(self.classify_expr(rhs));
+                // `and` / `or` need boolean (or null) operands at run time: `null or 1` fails there.
+                let logical_on_other_types = matches!(op, BinaryOp::And | BinaryOp::Or)
+                    && !(self.infer_expr_type(lhs) == Some(ValueType::Bool)
+                        && self.infer_expr_type(rhs) == Some(ValueType::Bool));
                 if matches!(op, BinaryOp::Divide | BinaryOp::Mod)
+                    || logical_on_other_types
                     || self.type_known_at_runtime_only(lhs)
                     || self.type_known_at_runtime_only(rhs)
                 {
@@ -1227,17 +1232,30 @@ impl<'ast, 'res> Resolver<'ast, 'res> {
                     class
                 }
             }
-            Expr::Member { object, .. } => self.classify_expr(object),
+            // `p.len` without the call parentheses is a run-time type mismatch.
+            Expr::Member { object, .. } => {
+                self.classify_expr(object).join(ExprClass::PureMayTrap)
+            }
             Expr::Call { callee, args, .. } => {
                 let mut class = args
                     .args
                     .iter()
                     .fold(ExprClass::PureNoTrap, |class, arg| class.join(self.classify_expr(arg)));
+                // Built-ins check the types (and some the values) of their arguments at run
+                // time: `"abc".find(p)`, `command(p)`, `"abc".slice(p, 2)` can all fail there.
+                let checks_arguments =
+                    if args.args.iter().any(|arg| self.type_known_at_runtime_only(arg)) {
+                        ExprClass::PureMayTrap
+                    } else {
+                        ExprClass::PureNoTrap
+                    };
 
                 match callee {
                     Expr::Var(func_name, ..) => {
                         if let Some(builtin) = GlobalBuiltin::from_name(func_name) {
-                            class = class.join(effects::global_builtin_class(builtin));
+                            class = class
+                                .join(effects::global_builtin_class(builtin))
+                                .join(checks_arguments);
                         } else if self.lookup_func(func_name).is_none() {
                             class = class.join(ExprClass::Impure);
                         }
@@ -1249,7 +1267,9 @@ impl<'ast, 'res> Resolver<'ast, 'res> {
                             class = class.join(ExprClass::PureMayTrap);
                         }
                         if let Some(builtin) = MemberBuiltin::from_name(field) {
-                            class = class.join(effects::member_builtin_class(builtin));
+                            class = class
+                                .join(effects::member_builtin_class(builtin))
+                                .join(checks_arguments);
                         } else {
                             class = class.join(ExprClass::Impure);
                         }
